@@ -39,6 +39,12 @@ pub fn op_lines(op: &Op) -> Vec<Vec<u8>> {
                 v
             }
         }
+        Op::MixedList => {
+            let mut v = vec![b"command_list_ok_begin".to_vec()];
+            v.extend(MIXED_LIST_LINES.iter().map(|l| l.as_bytes().to_vec()));
+            v.push(b"command_list_end".to_vec());
+            v
+        }
         Op::AlbumArt(_) => vec![],
     }
 }
@@ -97,6 +103,21 @@ fn expected_outcome(op: &Op, reply: &[u8]) -> Result<OpOutcome, String> {
                 let frames = if matches!(op, Op::ProbeSingle(_)) { vec![] } else { r.frames };
                 OpOutcome::Probes(Err(AErr::ErrorResponse { error: e, frames }))
             }
+        },
+        Op::MixedList => match r.error {
+            None => OpOutcome::Probes(Ok(r
+                .frames
+                .iter()
+                .zip(MIXED_LIST_LINES)
+                .map(|(f, line)| {
+                    if line.starts_with("probe") {
+                        f.fields.first().map(|x| x.1.clone()).unwrap_or_default()
+                    } else {
+                        describe_art(f.binary.as_ref().map(|b| (&b[..], f.fields.iter().find(|(k, _)| k == "type").map(|(_, v)| v.as_str()))))
+                    }
+                })
+                .collect())),
+            Some(e) => OpOutcome::Probes(Err(AErr::ErrorResponse { error: e, frames: r.frames })),
         },
         Op::AlbumArt(_) => return Err("album art has its own oracle".into()),
     })
@@ -440,14 +461,14 @@ pub fn oracle_c08(scn: &Scenario, t: &Trace, st: &mut ExploreStats) -> Vec<Viola
     // did the client run into the fault?
     // (the malformed line is the last 11 bytes of the stream; the client may stop reading in the
     // middle of it once the line cannot become valid any more)
-    let garbage_read = matches!(fault, Ev::Garbage) && t.read_pos + 11 > t.s2c.len();
+    let garbage_read = matches!(fault, Ev::Garbage) && t.read_pos + 11 > t.s2c.len() || matches!(fault, Ev::GarbageOpen) && t.read_pos + GARBAGE_OPEN.len() > t.s2c.len();
     let ended = t.saw_eof || t.saw_read_err || t.saw_write_err || garbage_read || t.handles_dropped;
     if !ended {
         st.count("fault_never_noticed");
         // a client that is alive always has a read outstanding (idling or waiting for a reply), or
         // gets back to one after its re-idle delay: a peer close, a reset, a read error or garbage
         // cannot stay unnoticed until the end of the drain. (A write error is only met on a write.)
-        if matches!(fault, Ev::Close(_) | Ev::CloseRst(_) | Ev::ReadErr | Ev::Garbage) && matches!(t.connect_result, Some(Ok(_))) {
+        if matches!(fault, Ev::Close(_) | Ev::CloseRst(_) | Ev::ReadErr | Ev::Garbage | Ev::GarbageOpen) && matches!(t.connect_result, Some(Ok(_))) {
             out.push(Violation::new(
                 "C08/connection-end-not-noticed",
                 format!("{} went unnoticed: after the drain (everything delivered, ticks) the client has still not run into it, is_connection_closed() = {:?} (choices {:?})", fault.name(), t.closed_flag, choices),
@@ -462,6 +483,7 @@ pub fn oracle_c08(scn: &Scenario, t: &Trace, st: &mut ExploreStats) -> Vec<Viola
         Ev::ReadErr => "read_error",
         Ev::WriteErr => "write_error",
         Ev::Garbage => "garbage",
+        Ev::GarbageOpen => "garbage_without_line_end",
         _ => "drop_handles",
     }));
     // every request resolved
@@ -507,7 +529,7 @@ pub fn oracle_c08(scn: &Scenario, t: &Trace, st: &mut ExploreStats) -> Vec<Viola
         Ev::CloseRst(_) => ref_decode(&t.s2c[scn.greeting.len().min(t.s2c.len())..]).end != RefEnd::Clean || t.saw_write_err,
         Ev::ReadErr => t.saw_read_err,
         Ev::WriteErr => t.saw_write_err,
-        Ev::Garbage => garbage_read,
+        Ev::Garbage | Ev::GarbageOpen => garbage_read,
         _ => false,
     };
     if unclean {
@@ -518,6 +540,44 @@ pub fn oracle_c08(scn: &Scenario, t: &Trace, st: &mut ExploreStats) -> Vec<Viola
         if !surfaced && !scn.drop_events_rx {
             let sig = if matches!(fault, Ev::Close(_) | Ev::CloseRst(_)) { "C08/unclean-close-reported-clean" } else { "C08/failure-not-surfaced" };
             out.push(Violation::new(sig, format!("{} ended the connection uncleanly but no caller saw a protocol error and no ConnectionClosed event was emitted (choices {:?})", fault.name(), choices), Value::Null));
+        }
+        // ... and to the right party: "to the caller whose request was in flight or, if none was,
+        // as a closing event". Judged only where "in flight" is beyond doubt: no caller gave up,
+        // and either the request line itself reached the server and was never answered (R1), or
+        // the last thing the client wrote is the `noidle` it only ever writes on behalf of a
+        // request it has taken from the queue (R2).
+        let no_cancel = t.ops.iter().flatten().all(|r| !r.cancelled);
+        if no_cancel {
+            let mut in_flight_clean: Vec<String> = Vec::new();
+            for (ci, ops) in t.ops.iter().enumerate() {
+                for (oi, rec) in ops.iter().enumerate() {
+                    let lines = op_lines(&rec.op);
+                    if rec.issued_step.is_none() || lines.is_empty() || !matches!(rec.op, Op::Raw(_) | Op::RawList(_)) {
+                        continue;
+                    }
+                    let reached = !find_record(t, &lines).is_empty();
+                    if reached && matches!(rec.outcome.as_ref().and_then(|o| o.err()), Some(AErr::Closed)) {
+                        in_flight_clean.push(format!("caller {ci} op {oi} {:?}", rec.op));
+                    }
+                }
+            }
+            if !in_flight_clean.is_empty() {
+                out.push(Violation::new(
+                    "C08/in-flight-caller-not-told",
+                    format!("{} ended the connection uncleanly while {} was in flight (its request line had reached the server and was not answered), but that caller was told the connection closed cleanly (choices {:?})", fault.name(), in_flight_clean.join(", "), choices),
+                    Value::Null,
+                ));
+            }
+            let last_line = t.c2s.split(|&b| b == b'\n').filter(|l| !l.is_empty()).last().map(|l| l.to_vec());
+            let complete_last = t.c2s.ends_with(b"\n");
+            let any_failed = t.ops.iter().flatten().any(|r| r.issued_step.is_some() && !r.issued_after_fault && r.outcome.as_ref().is_some_and(|o| o.err().is_some()));
+            if complete_last && last_line.as_deref() == Some(&b"noidle"[..]) && any_failed && !caller_err {
+                out.push(Violation::new(
+                    "C08/in-flight-caller-not-told",
+                    format!("{} ended the connection uncleanly after the client had written noidle on behalf of a queued request, but no caller saw the failure (choices {:?})", fault.name(), choices),
+                    Value::Null,
+                ));
+            }
         }
     } else {
         st.count("clean_ends");
@@ -611,7 +671,7 @@ pub fn s4(tier: Tier) -> Scenario {
     s.notify_budget = 1;
     s.split_budget = 1;
     s.split_menu = tier.pick(SplitMenu::Lines, SplitMenu::Bytes);
-    s.faults = vec![FaultKind::Close, FaultKind::CloseRst, FaultKind::ReadErr, FaultKind::WriteErr, FaultKind::Garbage, FaultKind::DropHandles];
+    s.faults = vec![FaultKind::Close, FaultKind::CloseRst, FaultKind::ReadErr, FaultKind::WriteErr, FaultKind::Garbage, FaultKind::GarbageOpen, FaultKind::DropHandles];
     s.fault_budget = 1;
     s.late_probe = true;
     s
@@ -623,7 +683,7 @@ pub fn micro_fault(tier: Tier) -> Scenario {
     s.notify_budget = 1;
     s.split_budget = 1;
     s.split_menu = tier.pick(SplitMenu::Lines, SplitMenu::Bytes);
-    s.faults = vec![FaultKind::Close, FaultKind::CloseRst, FaultKind::ReadErr, FaultKind::WriteErr, FaultKind::Garbage, FaultKind::DropHandles];
+    s.faults = vec![FaultKind::Close, FaultKind::CloseRst, FaultKind::ReadErr, FaultKind::WriteErr, FaultKind::Garbage, FaultKind::GarbageOpen, FaultKind::DropHandles];
     s.fault_budget = 1;
     s.late_probe = true;
     s
@@ -662,6 +722,30 @@ pub fn micro_ticks(_tier: Tier) -> Scenario {
 pub fn with_short_writes(mut s: Scenario, chunk: usize) -> Scenario {
     s.name = format!("{}+short-writes-{chunk}", s.name);
     s.write_chunk = Some(chunk);
+    s
+}
+
+pub fn with_fresh_clones(mut s: Scenario) -> Scenario {
+    s.name = format!("{}+fresh-clone-per-request", s.name);
+    s.fresh_clone_per_op = true;
+    s
+}
+
+/// one caller that gives up once, with a notification around (C04: events must survive it)
+pub fn micro_cancel(_tier: Tier) -> Scenario {
+    let mut s = Scenario::new("micro-cancellation", vec![caller(vec![Op::Raw("cmd A1".into()), Op::Raw("cmd A2".into())])]);
+    s.notify_names = vec!["player", "mixer"];
+    s.notify_budget = 2;
+    s.split_budget = 1;
+    s.cancel_budget = 1;
+    s
+}
+
+/// the last handle goes away at any point of a fault-free session (legality of what is written then)
+pub fn with_handle_drop(mut s: Scenario) -> Scenario {
+    s.name = format!("{}+last-handle-dropped", s.name);
+    s.faults = vec![FaultKind::DropHandles];
+    s.fault_budget = 1;
     s
 }
 
@@ -748,7 +832,7 @@ pub fn find_scenario_any(name: &str) -> Option<Scenario> {
 }
 
 fn find_scenario(name: &str, tier: Tier) -> Option<Scenario> {
-    let mut all = vec![s1(tier), s1p(tier), s2(tier), s3(tier), micro(tier), micro2(tier), s4(tier), micro_fault(tier), s5(tier), micro_ticks(tier), micro_stall(tier)];
+    let mut all = vec![s1(tier), s1p(tier), s2(tier), s3(tier), micro(tier), micro2(tier), s4(tier), micro_fault(tier), s5(tier), micro_ticks(tier), micro_stall(tier), micro_cancel(tier)];
     for base in [micro(Tier::Quick), micro2(Tier::Quick)] {
         let mut e = base.clone();
         e.split_menu = SplitMenu::Lines;
@@ -760,8 +844,15 @@ fn find_scenario(name: &str, tier: Tier) -> Option<Scenario> {
     }
     let dropped: Vec<Scenario> = all.iter().cloned().map(with_dropped_events).collect();
     let short: Vec<Scenario> = all.iter().cloned().flat_map(|s| [with_short_writes(s.clone(), 1), with_short_writes(s.clone(), 3), with_short_writes(s, 7)]).collect();
+    let fresh: Vec<Scenario> = all.iter().cloned().map(with_fresh_clones).collect();
+    let hdrop: Vec<Scenario> = all.iter().cloned().map(with_handle_drop).collect();
     all.extend(dropped);
     all.extend(short);
+    all.extend(fresh);
+    all.extend(hdrop);
+    for count in [90usize, 400, 1500] {
+        all.push(never_polled_storm(count).0);
+    }
     all.into_iter().find(|s| s.name == name)
 }
 
@@ -803,6 +894,8 @@ pub fn run_c01(tier: Tier) -> i32 {
         Plan { scn: with_dropped_events(s1(tier)), bound: tier.pick(2, 3) },
         Plan { scn: with_short_writes(s1(tier), 3), bound: tier.pick(2, 3) },
         Plan { scn: micro_stall(tier), bound: tier.pick(4, 5) },
+        Plan { scn: with_fresh_clones(s2(tier)), bound: tier.pick(3, 4) },
+        Plan { scn: micro_cancel(tier), bound: tier.pick(4, 5) },
     ];
     let (cov, viol) = run_plans(
         &ctx,
@@ -812,7 +905,57 @@ pub fn run_c01(tier: Tier) -> i32 {
         "all schedules of each scenario with at most `deviation_bound` departures from the default schedule (micro scenarios: unbounded); non-trivial = executions in which two requests were outstanding at once or a request was issued after a partial delivery or an op was cancelled",
         &["two_requests_outstanding", "issue_after_partial_delivery", "cancelled_ops"],
     );
+    let (mut cov, mut viol) = (cov, viol);
+    run_never_polled_storms(tier, &oracle_c01, &mut cov, &mut viol);
     finish(&ctx, cov, viol)
+}
+
+/// Directed deep histories with an application that keeps `ConnectionEvents` alive but never
+/// polls it: hundreds of changes, a request every few idle cycles. Requests must still resolve
+/// (C01) and the client must keep idling (C05).
+pub fn run_never_polled_storms(tier: Tier, oracle: &Oracle, cov: &mut Coverage, viol: &mut Violations) {
+    let mut runs = Vec::new();
+    for count in [90usize, tier.pick(400, 1500)] {
+        let (scn, script) = never_polled_storm(count);
+        let mut chooser = NameChooser { names: script, cursor: 0, repeats: 0 };
+        let t = run_once(&scn, &mut chooser).unwrap_or_else(|e| machinery_error(&format!("never-polled storm: {e}")));
+        let mut st = ExploreStats::default();
+        for mut v in oracle(&scn, &t, &mut st) {
+            v.case = t.case_json(&scn);
+            viol.push(v);
+        }
+        cov.evaluations += 1;
+        cov.transitions += t.points.len() as u64;
+        cov.distinct_nontrivial += 1;
+        runs.push(json!({"scenario": scn.name, "changes_reported_by_server": t.server.changed.len(), "requests_issued": t.ops.iter().flatten().filter(|r| r.issued_step.is_some()).count(), "requests_resolved": t.ops.iter().flatten().filter(|r| r.outcome.is_some()).count(), "steps": t.points.len()}));
+    }
+    cov.set("never_polled_event_storms", Value::Array(runs));
+}
+
+pub fn never_polled_storm(count: usize) -> (Scenario, Vec<String>) {
+    let requests = count / 10 + 2;
+    let mut scn = Scenario::new(&format!("storm-events-never-polled-{count}"), vec![CallerProg { ops: (0..requests).map(|i| Op::Raw(format!("cmd N{i}"))).collect(), pipeline: true }]);
+    let mut names: Vec<&'static str> = crate::mpdref::server::IDLE_NAMES.to_vec();
+    names.push("newthing");
+    scn.notify_names = names.clone();
+    scn.never_poll_events = true;
+    scn.max_steps = 6 * count + 200;
+    scn.long_tick_budget = 0;
+    let mut script: Vec<String> = Vec::new();
+    for k in 0..count {
+        script.push(format!("Notify({})", names[k % names.len()]));
+        if k % 3 == 2 {
+            script.push(format!("Notify({})", names[(k + 5) % names.len()]));
+        }
+        // optional: a client that has stopped reading or idling leaves nothing to deliver
+        script.push("DeliverAll?".into());
+        if k % 10 == 9 {
+            script.extend(["Issue(0)?".to_string(), "DeliverAll?".into(), "DeliverAll?".into(), "Tick*".into()]);
+        }
+    }
+    script.extend(["Issue(0)?".to_string(), "DeliverAll?".into(), "DeliverAll?".into(), "Tick*".into()]);
+    scn.notify_budget = script.iter().filter(|x| x.starts_with("Notify")).count();
+    (scn, script)
 }
 
 pub fn run_c04(tier: Tier) -> i32 {
@@ -828,6 +971,9 @@ pub fn run_c04(tier: Tier) -> i32 {
         // the connection dying right after an idle reply was read must not swallow its events
         Plan { scn: micro_fault(tier), bound: 99 },
         Plan { scn: s4(tier), bound: tier.pick(3, 4) },
+        // callers that give up around a notification (the reply to their noidle may carry changes)
+        Plan { scn: micro_cancel(tier), bound: tier.pick(4, 5) },
+        Plan { scn: s2(tier), bound: tier.pick(3, 4) },
     ];
     let (cov, viol) = run_plans(
         &ctx,
@@ -868,6 +1014,8 @@ pub fn storm_scenario(variant: &str, count: usize, with_requests: bool) -> (Scen
     let mut scn = Scenario::new(&format!("C04-storm-unpolled-{variant}"), vec![caller((0..8).map(|i| Op::Raw(format!("cmd S{i}"))).collect())]);
     let mut names: Vec<&'static str> = crate::mpdref::server::IDLE_NAMES.to_vec();
     names.push("newthing");
+    // names the library does not know, spelt in ways a lenient parser would "normalise"
+    names.extend(["Player", "MIXER", "Stored_Playlist", "Fingerprint", "two words", "trailing blank ", " leading blank", "x-y_z"]);
     if variant == "names-reversed" {
         names.reverse();
     }
@@ -955,6 +1103,9 @@ pub fn run_c05(tier: Tier) -> i32 {
         Plan { scn: with_dropped_events(s3(tier)), bound: tier.pick(2, 3) },
         Plan { scn: with_short_writes(s1(tier), 1), bound: tier.pick(2, 3) },
         Plan { scn: with_short_writes(s3(tier), 7), bound: tier.pick(2, 3) },
+        // what is written when the last handle goes away (e.g. a farewell while the server idles)
+        Plan { scn: with_handle_drop(micro(tier)), bound: 99 },
+        Plan { scn: with_handle_drop(s1(tier)), bound: tier.pick(3, 4) },
         Plan { scn: micro_stall(tier), bound: tier.pick(4, 5) },
     ];
     let (cov, viol) = run_plans(
@@ -979,12 +1130,13 @@ pub fn run_c05(tier: Tier) -> i32 {
     let (lazy_report, lazy_viol) = lazy_cross_check(tier, &lazy_oracle);
     cov.set("eager_vs_lazy_server", lazy_report);
     viol.merge(lazy_viol);
+    run_never_polled_storms(tier, &oracle_c05, &mut cov, &mut viol);
     finish(&ctx, cov, viol)
 }
 
 pub fn run_c08(tier: Tier) -> i32 {
     let mut ctx = Ctx::new("C08", tier, "fault_enumeration");
-    ctx.assume("fault model: peer close after p more bytes (every offset), persistent read error, persistent write error, one injected malformed line, all handles dropped while idle; writes after a peer close are accepted silently");
+    ctx.assume("fault model: peer close after p more bytes (every offset), persistent read error, persistent write error, one injected malformed line, malformed bytes without a line end followed by silence, all handles dropped while idle; writes after a peer close are accepted silently");
     ctx.assume("'the connection ends' = the client ran into the fault (EOF/read error/write error returned to it, garbage read, handles dropped)");
     let plans = vec![
         Plan { scn: micro_fault(tier), bound: 99 },
